@@ -52,6 +52,36 @@ func exchange(addr string, raw []byte, method string, wait time.Duration) exch {
 	return readOne(c, method, wait)
 }
 
+// exchangeAll sends raw (which must ask for "Connection: close") on a fresh
+// connection, reads until the peer closes (or wait passes) and parses the first
+// response; bytes after it are Raw[Msg.ConsumedLen:].
+func exchangeAll(addr string, raw []byte, method string, wait time.Duration) exch {
+	c, err := net.DialTimeout("tcp", addr, 10*time.Second)
+	if err != nil {
+		return exch{Err: err, Timeout: true}
+	}
+	defer c.Close()
+	c.SetWriteDeadline(time.Now().Add(wait))
+	c.Write(raw)
+	var e exch
+	e.Raw, e.Closed = sys.ReadAllTimeout(c, wait)
+	if !e.Closed {
+		e.Timeout = true
+		e.Err = fmt.Errorf("peer did not close within %v (have %d bytes)", wait, len(e.Raw))
+		return e
+	}
+	if len(e.Raw) == 0 {
+		return e
+	}
+	m, perr := ref.ParseResponse(e.Raw, method, true)
+	if perr != nil {
+		e.Err = perr
+		return e
+	}
+	e.Msg = m
+	return e
+}
+
 func readOne(c net.Conn, method string, wait time.Duration) exch {
 	deadline := time.Now().Add(wait)
 	buf := make([]byte, 64*1024)
